@@ -2,6 +2,7 @@ package props
 
 import (
 	"fmt"
+	"math"
 	"strconv"
 	"strings"
 
@@ -84,6 +85,20 @@ func c09Universe() []univ.Val {
 		add("int32_"+s, ref.Int(n), int32(n))
 		add("float64_"+s, ref.Float(float64(n)), float64(n))
 	}
+	// typed slices holding the boundary values of their element type (a wrapped conversion of the element or of
+	// the needle would make them "contain" a number they do not hold)
+	add("l_u64_edges", univ.L(ref.Uint(math.MaxUint64), ref.Uint(1<<63), ref.Int(1)), []uint64{math.MaxUint64, 1 << 63, 1})
+	add("l_u8_edges", univ.L(ref.Int(255), ref.Int(200), ref.Int(0)), []uint8{255, 200, 0})
+	add("l_i8_edges", univ.L(ref.Int(-128), ref.Int(-1), ref.Int(127)), []int8{-128, -1, 127})
+	add("l_u32_edges", univ.L(ref.Int(1<<32-1), ref.Int(1<<31)), []uint32{1<<32 - 1, 1 << 31})
+	add("l_i64_edges", univ.L(ref.Int(math.MinInt64), ref.Int(math.MaxInt64)), []int64{math.MinInt64, math.MaxInt64})
+	add("l_f32_edges", univ.L(ref.Float(16777216), ref.Float(0.5)), []float32{16777216, 0.5})
+	add("i_255", ref.Int(255), 255)
+	add("i_m128", ref.Int(-128), -128)
+	add("i_256", ref.Int(256), 256)
+	add("i_m56", ref.Int(-56), -56)
+	add("i_2e32m1", ref.Int(1<<32-1), 1<<32-1)
+	add("f_m1", ref.Float(-1), -1.0)
 	add("s_97", "97", "97")
 	add("m_e_acute", ref.NewMap("é", ref.Int(1), "97", ref.Int(2)), map[string]any{"é": 1, "97": 2})
 	add("l_s_a1e", univ.L("a", "1", "é", "97"), []string{"a", "1", "é", "97"})
